@@ -1077,7 +1077,12 @@ impl<T: Transport + 'static> SyncEngine<T> {
                             .emit();
                         }
 
-                        Ok(())
+                        // The data is up to date; its extended attributes may not be (-X)
+                        if let Some(source) = &task.source {
+                            transferrer.refresh_xattrs(source, &task.dest_path).await
+                        } else {
+                            Ok(())
+                        }
                     }
                     SyncAction::Delete => {
                         let is_dir = task.dest_path.is_dir();
